@@ -359,8 +359,9 @@ int reproc_read(reproc_t *process, REPROC_STREAM stream, uint8_t *buffer, size_t
   ENS("C14/reproc_read.misuse_is_einval", IMPLIES(!RD_ARGS_OK, RV == -EINVAL && OS_UNTOUCHED))
   ENS("C02+C14/reproc_read.closed_or_unpiped_stream_is_epipe", IMPLIES(RD_ARGS_OK && RD_PIPE0 == -1, RV == -EPIPE && OS_UNTOUCHED && HANDLE_UNCHANGED))
   ENS("C02/reproc_read.one_read_on_that_stream", IMPLIES(RD_ARGS_OK && RD_PIPE0 != -1, g.rl.rd_calls == OLD(g.rl.rd_calls) + 1 && g.rl.rd_fd == RD_PIPE0 && g.rl.rd_buf == (const void *) buffer && g.rl.rd_n == size && g.wl.wr_calls == OLD(g.wl.wr_calls) && g.pl.poll_calls == OLD(g.pl.poll_calls)))
-  ENS("C02/reproc_read.result_is_kernels", IMPLIES(RD_ARGS_OK && RD_PIPE0 != -1, (g.rl.rd_ret > 0 ? RV == g.rl.rd_ret : g.rl.rd_ret == 0 ? RV == -EPIPE : (RV == -g.rl.rd_errno && RV < 0))))
-  ENSX("C02/reproc_read.epipe_only_at_end_of_stream", IMPLIES(RD_ARGS_OK && RD_PIPE0 != -1 && RV == -EPIPE, g.rl.rd_ret == 0))
+  ENS("C02/reproc_read.result_is_kernels", IMPLIES(RD_ARGS_OK && RD_PIPE0 != -1, (g.rl.rd_ret > 0 ? RV == g.rl.rd_ret : g.rl.rd_eof ? RV == -EPIPE : g.rl.rd_ret == 0 ? RV == 0 : (RV == -g.rl.rd_errno && RV < 0))))
+  ENS("C02/reproc_read.end_of_stream_is_zero_for_a_nonempty_request", IMPLIES(RD_ARGS_OK && RD_PIPE0 != -1, g.rl.rd_eof == (g.rl.rd_ret == 0 && size > 0)))
+  ENS("C02/reproc_read.epipe_only_at_end_of_stream", IMPLIES(RD_ARGS_OK && RD_PIPE0 != -1 && RV == -EPIPE, g.rl.rd_eof))
   ENS("C02/reproc_read.epipe_is_sticky", IMPLIES(RD_ARGS_OK && RV == -EPIPE, RD_PIPE == -1 && g.fds.open == (OLD(g.fds.open) & ~MASK_OF(RD_PIPE0)) && g.fds.lib == (OLD(g.fds.lib) & ~MASK_OF(RD_PIPE0))))
   ENS("C02/reproc_read.stream_kept_open_otherwise", IMPLIES(RD_ARGS_OK && RV != -EPIPE, RD_PIPE == RD_PIPE0 && g.fds.open == OLD(g.fds.open) && g.fds.lib == OLD(g.fds.lib)))
   ENSX("C17/reproc_read.ewouldblock", IMPLIES(RD_ARGS_OK && RD_PIPE0 != -1 && g.rl.rd_ret < 0 && g.rl.rd_errno == EAGAIN, RV == REPROC_EWOULDBLOCK))
